@@ -151,6 +151,7 @@ pub struct Sig {
     pub has_intset: bool,
 }
 
+#[derive(Clone)]
 pub struct Gen {
     pub rng: Rng,
     pub f: Features,
@@ -1330,4 +1331,70 @@ fn contains_let(t: &Sexp, lets: &[(String, Ty)]) -> bool {
 
 pub fn to_text(ops: &[Sexp]) -> Vec<String> {
     ops.iter().map(|s| s.to_string()).collect()
+}
+
+impl Gen {
+    /// Extra declarations with tag-specific names (used by bodies whose names
+    /// are later re-declared): a constructor, a relation, a function, a ruleset.
+    pub fn gen_extra_decls(&mut self, tag: &str) -> Vec<Sexp> {
+        let mut ops = Vec::new();
+        let ns = self.sig.sorts.len();
+        let s = self.rng.below(ns);
+        // constructor
+        let arity = self.rng.below(3);
+        let mut args = Vec::new();
+        for _ in 0..arity {
+            args.push(if self.rng.chance(1, 4) { Ty::I64 } else { Ty::Eq(self.rng.below(ns)) });
+        }
+        let cname = format!("K{tag}");
+        ops.push(Sexp::call(
+            "constructor",
+            vec![
+                Sexp::atom(&cname),
+                Sexp::list(args.iter().map(|t| Sexp::atom(&self.ty_name(t))).collect()),
+                Sexp::atom(&self.sig.sorts[s].clone()),
+            ],
+        ));
+        self.sig.ctors.push(Ctor { name: cname, args, out: s, cost: None, unextractable: false });
+        // relation
+        let rname = format!("R{tag}");
+        let rargs: Vec<Ty> = (0..1 + self.rng.below(2))
+            .map(|_| if self.rng.chance(1, 3) { Ty::I64 } else { Ty::Eq(self.rng.below(ns)) })
+            .collect();
+        ops.push(Sexp::call(
+            "relation",
+            vec![
+                Sexp::atom(&rname),
+                Sexp::list(rargs.iter().map(|t| Sexp::atom(&self.ty_name(t))).collect()),
+            ],
+        ));
+        self.sig.rels.push(Rel { name: rname, args: rargs });
+        // function
+        let fname = format!("f{tag}");
+        let fargs: Vec<Ty> = (0..1 + self.rng.below(2))
+            .map(|_| if self.rng.chance(1, 2) { Ty::I64 } else { Ty::Eq(self.rng.below(ns)) })
+            .collect();
+        let mx = self.rng.chance(1, 2);
+        ops.push(Sexp::call(
+            "function",
+            vec![
+                Sexp::atom(&fname),
+                Sexp::list(fargs.iter().map(|t| Sexp::atom(&self.ty_name(t))).collect()),
+                Sexp::atom("i64"),
+                Sexp::atom(":merge"),
+                Sexp::call(if mx { "max" } else { "min" }, vec![Sexp::atom("old"), Sexp::atom("new")]),
+            ],
+        ));
+        self.sig.funcs.push(Func {
+            name: fname,
+            args: fargs,
+            out: FuncOut::I64,
+            merge: if mx { Merge::Max } else { Merge::Min },
+        });
+        // ruleset
+        let rs = format!("r{tag}");
+        ops.push(Sexp::call("ruleset", vec![Sexp::atom(&rs)]));
+        self.sig.rulesets.push(rs);
+        ops
+    }
 }
